@@ -189,6 +189,13 @@ def exact_vs_float(ctx, recs):
         ctx.harness_errors.append("coqc failed on %s: %s" % (e[0], e[2][-600:]))
 
 
+def _seqsum(row):
+    t = 0
+    for w, _ in row:
+        t += w
+    return t
+
+
 def float_trace_monotone(ctx, recs):
     """the binary64 model (bit-exact with the implementation) is monotone from below and stays in [0,1] sweep by sweep:
     observed on the model's own trace, for the games of this run (the theorem is about exact rationals)"""
@@ -203,6 +210,9 @@ def float_trace_monotone(ctx, recs):
         if it > 300:
             continue
         seen.add(key)
+        if any(k == PR and _seqsum(row) > 1 for k, row in zip(r.game["players"], r.game["transition_list"])):
+            ctx.count("binary64 weights add up to more than 1 (0.4+0.2+0.3+0.1): outside the idealisation, not traced")
+            continue
         try:
             terms.append("(%s, %d)" % (cgame(r.game), it))
             meta.append(r)
